@@ -53,7 +53,7 @@ func (f *FnEnc) lazyHeap(st *State, key string) string {
 		f.c.ufs[name] = true
 		f.c.raw(fmt.Sprintf("(declare-const %s %s)", name, f.heapSortOf(key)))
 	}
-	st.heaps[key] = name
+	setHeap(st, key, name)
 	return name
 }
 
@@ -77,9 +77,9 @@ func (f *FnEnc) mapInit(st *State, t types.Type, ref string) {
 	ks := f.mapKeySort(mt)
 	hk := f.mapHasKey(mt)
 	h := f.lazyHeap(st, hk)
-	st.heaps[hk] = f.c.define("Mhas", f.heapSortOf(hk), sto(h, ref, fmt.Sprintf("((as const (Array %s Bool)) false)", ks)))
+	setHeap(st, hk, f.c.define("Mhas", f.heapSortOf(hk), sto(h, ref, fmt.Sprintf("((as const (Array %s Bool)) false)", ks))))
 	l := f.lazyHeap(st, "map:len")
-	st.heaps["map:len"] = f.c.define("Mlen", f.heapSortOf("map:len"), sto(l, ref, bv64(0)))
+	setHeap(st, "map:len", f.c.define("Mlen", f.heapSortOf("map:len"), sto(l, ref, bv64(0))))
 }
 
 // mapGet returns (has, value) for key k.
@@ -138,13 +138,13 @@ func (f *FnEnc) mapStore(st *State, mt *types.Map, ref, k string, v Val) {
 	hh := f.lazyHeap(st, hk)
 	had := sel(sel(hh, ref), k)
 	ln := f.lazyHeap(st, "map:len")
-	st.heaps["map:len"] = f.c.define("Mlen", f.heapSortOf("map:len"), sto(ln, ref, ite(had, sel(ln, ref), "(bvadd "+sel(ln, ref)+" "+bv64(1)+")")))
-	st.heaps[hk] = f.c.define("Mhas", f.heapSortOf(hk), sto(hh, ref, sto(sel(hh, ref), k, "true")))
+	setHeap(st, "map:len", f.c.define("Mlen", f.heapSortOf("map:len"), sto(ln, ref, ite(had, sel(ln, ref), "(bvadd "+sel(ln, ref)+" "+bv64(1)+")"))))
+	setHeap(st, hk, f.c.define("Mhas", f.heapSortOf(hk), sto(hh, ref, sto(sel(hh, ref), k, "true"))))
 	vs := f.l.leafSorts(mt.Elem())
 	for p, so := range vs {
 		vk := f.mapValKey(mt, p, so)
 		vh := f.lazyHeap(st, vk)
-		st.heaps[vk] = f.c.define("Mval", f.heapSortOf(vk), sto(vh, ref, sto(sel(vh, ref), k, v.L[p])))
+		setHeap(st, vk, f.c.define("Mval", f.heapSortOf(vk), sto(vh, ref, sto(sel(vh, ref), k, v.L[p]))))
 	}
 }
 
@@ -153,8 +153,8 @@ func (f *FnEnc) mapDelete(st *State, mt *types.Map, ref, k string) {
 	hh := f.lazyHeap(st, hk)
 	had := and(not(eq(ref, "0")), sel(sel(hh, ref), k))
 	ln := f.lazyHeap(st, "map:len")
-	st.heaps["map:len"] = f.c.define("Mlen", f.heapSortOf("map:len"), sto(ln, ref, ite(had, "(bvsub "+sel(ln, ref)+" "+bv64(1)+")", sel(ln, ref))))
-	st.heaps[hk] = f.c.define("Mhas", f.heapSortOf(hk), sto(hh, ref, sto(sel(hh, ref), k, "false")))
+	setHeap(st, "map:len", f.c.define("Mlen", f.heapSortOf("map:len"), sto(ln, ref, ite(had, "(bvsub "+sel(ln, ref)+" "+bv64(1)+")", sel(ln, ref)))))
+	setHeap(st, hk, f.c.define("Mhas", f.heapSortOf(hk), sto(hh, ref, sto(sel(hh, ref), k, "false"))))
 }
 
 // next models one step of a range over a map or string: an arbitrary
@@ -283,9 +283,9 @@ func (f *FnEnc) builtin(fr *Frame, st *State, R string, in ssa.Value, b *ssa.Bui
 		case *types.Map:
 			hk := f.mapHasKey(u)
 			hh := f.lazyHeap(st, hk)
-			st.heaps[hk] = f.c.define("Mhas", f.heapSortOf(hk), sto(hh, args[0].L[0], fmt.Sprintf("((as const (Array %s Bool)) false)", f.mapKeySort(u))))
+			setHeap(st, hk, f.c.define("Mhas", f.heapSortOf(hk), sto(hh, args[0].L[0], fmt.Sprintf("((as const (Array %s Bool)) false)", f.mapKeySort(u)))))
 			ln := f.lazyHeap(st, "map:len")
-			st.heaps["map:len"] = f.c.define("Mlen", f.heapSortOf("map:len"), sto(ln, args[0].L[0], bv64(0)))
+			setHeap(st, "map:len", f.c.define("Mlen", f.heapSortOf("map:len"), sto(ln, args[0].L[0], bv64(0))))
 			return Val{}, true
 		}
 	case "recover":
@@ -311,6 +311,7 @@ func (f *FnEnc) copyOp(st *State, R string, dst, src Val) string {
 	if f.l.oneCell(et) {
 		so := f.l.leafSorts(et)[0]
 		h := f.heap(st, so)
+		f.noteWrite(writeRec{Class: so, Kind: "subrange", Ref: dst.L[0], Idx: dst.L[1], Sub: dst.L[2], SubHi: bvadd(dst.L[2], n)})
 		dmid := f.c.define("dmid", midSort(so), sel(h, dst.L[0]))
 		dinner := f.c.define("dinner", innerSort(so), sel(dmid, dst.L[1]))
 		var srcAt string
@@ -321,16 +322,17 @@ func (f *FnEnc) copyOp(st *State, R string, dst, src Val) string {
 			srcAt = "(select " + sinner + " (bvadd (bvsub k!l " + dst.L[2] + ") " + src.L[2] + "))"
 		}
 		ninner := f.c.lambda(so, "(ite "+inRange("k!l", dst.L[2], bvadd(dst.L[2], n))+" "+srcAt+" (select "+dinner+" k!l))")
-		st.heaps[so] = f.c.define("H"+className(so), heapSort(so), sto(h, dst.L[0], sto(dmid, dst.L[1], ninner)))
+		setHeap(st, so, f.c.define("H"+className(so), heapSort(so), sto(h, dst.L[0], sto(dmid, dst.L[1], ninner))))
 		return n
 	}
 	// multi-cell elements: whole inner arrays move along idx
 	for _, so := range f.l.classesOf(et) {
 		h := f.heap(st, so)
+		f.noteWrite(writeRec{Class: so, Kind: "idxrange", Ref: dst.L[0], Idx: dst.L[1], IdxHi: bvadd(dst.L[1], n)})
 		dmid := f.c.define("dmid", midSort(so), sel(h, dst.L[0]))
 		smid := f.c.define("smid", midSort(so), sel(h, src.L[0]))
 		nmid := f.c.lambda(innerSort(so), "(ite "+inRange("k!l", dst.L[1], bvadd(dst.L[1], n))+" (select "+smid+" (bvadd (bvsub k!l "+dst.L[1]+") "+src.L[1]+")) (select "+dmid+" k!l))")
-		st.heaps[so] = f.c.define("H"+className(so), heapSort(so), sto(h, dst.L[0], nmid))
+		setHeap(st, so, f.c.define("H"+className(so), heapSort(so), sto(h, dst.L[0], nmid)))
 	}
 	return n
 }
@@ -368,6 +370,8 @@ func (f *FnEnc) appendOp(st *State, R string, s, t Val, rt types.Type) Val {
 	if one {
 		so := f.l.leafSorts(et)[0]
 		h := f.heap(st, so)
+		// in place: cells [sub+len, sub+newLen) of s's array; otherwise a fresh object
+		f.noteWrite(writeRec{Class: so, Kind: "subrange", Ref: ref, Idx: ridx, Sub: bvadd(rsub, s.L[3]), SubHi: bvadd(rsub, newLen)})
 		smid := f.c.define("smid", midSort(so), sel(h, s.L[0]))
 		sinner := f.c.define("sinner", innerSort(so), sel(smid, s.L[1]))
 		var tAt string
@@ -382,10 +386,11 @@ func (f *FnEnc) appendOp(st *State, R string, s, t Val, rt types.Type) Val {
 		oldAt := ite(fits, "(select "+sinner+" k!l)", ite("(bvult "+off+" "+s.L[3]+")", "(select "+sinner+" (bvadd "+s.L[2]+" "+off+"))", zeroOf(so)))
 		ninner := f.c.lambda(so, "(ite (and (bvule "+s.L[3]+" "+off+") (bvult "+off+" "+newLen+")) "+tAt+" "+oldAt+")")
 		nmid := ite(fits, sto(smid, s.L[1], ninner), fmt.Sprintf("((as const %s) %s)", midSort(so), ninner))
-		st.heaps[so] = f.c.define("H"+className(so), heapSort(so), sto(h, ref, nmid))
+		setHeap(st, so, f.c.define("H"+className(so), heapSort(so), sto(h, ref, nmid)))
 	} else {
 		for _, so := range f.l.classesOf(et) {
 			h := f.heap(st, so)
+			f.noteWrite(writeRec{Class: so, Kind: "idxrange", Ref: ref, Idx: bvadd(ridx, s.L[3]), IdxHi: bvadd(ridx, newLen)})
 			smid := f.c.define("smid", midSort(so), sel(h, s.L[0]))
 			tmid := f.c.define("tmid", midSort(so), sel(h, t.L[0]))
 			off := "(bvsub k!l " + ridx + ")"
@@ -393,7 +398,7 @@ func (f *FnEnc) appendOp(st *State, R string, s, t Val, rt types.Type) Val {
 			zinner := fmt.Sprintf("((as const %s) %s)", innerSort(so), zeroOf(so))
 			oldAt := ite(fits, "(select "+smid+" k!l)", ite("(bvult "+off+" "+s.L[3]+")", "(select "+smid+" (bvadd "+s.L[1]+" "+off+"))", zinner))
 			nmid := f.c.lambda(innerSort(so), "(ite (and (bvule "+s.L[3]+" "+off+") (bvult "+off+" "+newLen+")) "+tAt+" "+oldAt+")")
-			st.heaps[so] = f.c.define("H"+className(so), heapSort(so), sto(h, ref, nmid))
+			setHeap(st, so, f.c.define("H"+className(so), heapSort(so), sto(h, ref, nmid)))
 		}
 	}
 	// append(nil-or-any, nothing) keeps s as is
